@@ -207,6 +207,11 @@ def ramp (k : Kind) : Nat → Nat → List Req
 inductive Family where
   | paren | unary | lnot | leftBin | concat | assign | ternary | block | ifChain | elseIf | whileChain
   | index | call | recur | mapNest | regex | dollar | getline | pipe | incl | seq
+  /-- a binary chain inside a function that is never called: parsed and freed, not evaluated -/
+  | chainFree
+  /-- recursion through a function called with `a` actual arguments that declares `p` more parameters
+      (padded with nil), in a program that declares `k` extra globals -/
+  | recurPad (a p k : Nat)
 deriving Repr, DecidableEq
 
 /-- number of value-stack slots in use when the BEGIN block of the generated programs runs:
@@ -221,6 +226,15 @@ def recurFrom : Nat → Nat → List Req
   | 0, j => [⟨stack, stackBase + 5 * j + 5⟩, ⟨blockRun, 2 + j⟩, ⟨exprRun, 2 * j + 4⟩]
   | more + 1, j =>
     [⟨stack, stackBase + 5 * j + 5⟩, ⟨blockRun, 2 + j⟩, ⟨exprRun, 2 * j + 4⟩, ⟨exprRun, 2 * j + 6⟩] ++ recurFrom more (j + 1)
+
+open Kind in
+/-- like `recurFrom` for `function f(n, a1.., p1..) { if (n<=0) return 0; return 1+f(n-1, 1, 2, ..) }` called with
+    fewer arguments than it declares: hawk_rtx_evalcall asks for the whole frame up front,
+    `stack_req = 4 + call->nargs + (fun->nargs - call->nargs)` = `frame`, with `base + frame * j` slots in use -/
+def padFrom (frame base : Nat) : Nat → Nat → List Req
+  | 0, j => [⟨stack, base + frame * j + frame⟩, ⟨blockRun, 2 + j⟩, ⟨exprRun, 2 * j + 4⟩]
+  | more + 1, j =>
+    [⟨stack, base + frame * j + frame⟩, ⟨blockRun, 2 + j⟩, ⟨exprRun, 2 * j + 4⟩, ⟨exprRun, 2 * j + 6⟩] ++ padFrom frame base more (j + 1)
 
 open Kind in
 /-- nested calls f(f(f(..1..))): level k (1 = outermost) is entered with k+1 evaluations active, its frame
@@ -239,7 +253,8 @@ def parseReqs : Family → Nat → List Req
   | .assign, n => ⟨blockParse, 1⟩ :: ramp exprParse 0 (n + 1)
   | .leftBin, _ | .concat, _ | .ifChain, _ | .elseIf, _ | .whileChain, _ | .regex, _ => [⟨blockParse, 1⟩, ⟨exprParse, 1⟩, ⟨exprParse, 2⟩]
   | .block, n => ramp blockParse 0 (n + 1) ++ [⟨exprParse, 1⟩, ⟨exprParse, 2⟩]
-  | .recur, _ => [⟨blockParse, 1⟩, ⟨exprParse, 1⟩, ⟨exprParse, 2⟩, ⟨exprParse, 3⟩]
+  | .recur, _ | .recurPad _ _ _, _ => [⟨blockParse, 1⟩, ⟨exprParse, 1⟩, ⟨exprParse, 2⟩, ⟨exprParse, 3⟩]
+  | .chainFree, _ => [⟨blockParse, 1⟩, ⟨exprParse, 1⟩, ⟨exprParse, 2⟩]
   | .mapNest, _ => [⟨blockParse, 1⟩, ⟨exprParse, 1⟩, ⟨exprParse, 2⟩, ⟨blockParse, 2⟩, ⟨exprParse, 3⟩]
   | .incl, n => ramp incl 0 n ++ [⟨blockParse, 1⟩, ⟨exprParse, 1⟩, ⟨exprParse, 2⟩]
   | .seq, _ => ⟨blockParse, 1⟩ :: ⟨blockParse, 2⟩ :: ramp exprParse 0 5
@@ -254,6 +269,8 @@ def runReqs : Family → Nat → List Req
   | .block, n => ramp blockRun 0 (n + 1) ++ [⟨exprRun, 1⟩, ⟨exprRun, 2⟩]
   | .call, n => ⟨blockRun, 1⟩ :: ⟨exprRun, 1⟩ :: callFrom n 1 ++ [⟨exprRun, n + 2⟩, ⟨blockRun, 2⟩]
   | .recur, n => [⟨blockRun, 1⟩, ⟨exprRun, 1⟩, ⟨exprRun, 2⟩, ⟨exprRun, 3⟩] ++ recurFrom n 0
+  | .recurPad a p k, n => [⟨blockRun, 1⟩, ⟨exprRun, 1⟩, ⟨exprRun, 2⟩, ⟨exprRun, 3⟩] ++ padFrom (4 + a + p) (stackBase + k) n 0
+  | .chainFree, _ => [⟨blockRun, 1⟩, ⟨exprRun, 1⟩, ⟨exprRun, 2⟩]
   | .mapNest, _ => [⟨blockRun, 1⟩, ⟨exprRun, 1⟩, ⟨exprRun, 2⟩, ⟨blockRun, 2⟩, ⟨exprRun, 3⟩]
   | .regex, _ => [⟨blockRun, 1⟩, ⟨exprRun, 1⟩, ⟨exprRun, 2⟩, ⟨exprRun, 3⟩]
   | .incl, _ => [⟨blockRun, 1⟩, ⟨exprRun, 1⟩, ⟨exprRun, 2⟩, ⟨stack, stackBase + 4⟩, ⟨blockRun, 2⟩, ⟨exprRun, 3⟩]
@@ -264,11 +281,11 @@ def requests (f : Family) (n : Nat) : List Req := parseReqs f n ++ runReqs f n
 
 /-- what the program prints when nothing stops it (none = not specified by this model) -/
 def output : Family → Nat → Option String
-  | .paren, _ | .assign, _ | .block, _ | .ifChain, _ | .elseIf, _ | .whileChain, _ | .index, _ | .call, _ | .regex, _ | .seq, _ => some "1"
+  | .paren, _ | .assign, _ | .block, _ | .ifChain, _ | .elseIf, _ | .whileChain, _ | .index, _ | .call, _ | .regex, _ | .seq, _ | .chainFree, _ => some "1"
   | .unary, n => some (if n % 2 = 0 then "1" else "-1")
   | .lnot, n => some (if n % 2 = 0 then "1" else "0")
   | .leftBin, n | .concat, n => some (toString (n + 1))
-  | .recur, n | .incl, n => some (toString n)
+  | .recur, n | .incl, n | .recurPad _ _ _, n => some (toString n)
   | .ternary, _ => some "2"
   | .mapNest, _ => some "map"
   | .dollar, _ => some "[]"
@@ -296,22 +313,23 @@ def peakOf : Family → Kind → Nat → Nat
   | .call, .exprParse, n | .dollar, .exprParse, n | .getline, .exprParse, n | .pipe, .exprParse, n => n + 2
   | .assign, .exprParse, n => n + 1
   | .seq, .exprParse, _ => 5
-  | .recur, .exprParse, _ | .mapNest, .exprParse, _ => 3
+  | .recur, .exprParse, _ | .mapNest, .exprParse, _ | .recurPad _ _ _, .exprParse, _ => 3
   | _, .exprParse, _ => 2
   | .block, .blockRun, n => n + 1
-  | .recur, .blockRun, n => n + 2
+  | .recur, .blockRun, n | .recurPad _ _ _, .blockRun, n => n + 2
   | .seq, .blockRun, _ => 3
   | .call, .blockRun, _ | .mapNest, .blockRun, _ | .incl, .blockRun, _ => 2
   | _, .blockRun, _ => 1
   | .unary, .exprRun, n | .lnot, .exprRun, n | .leftBin, .exprRun, n | .concat, .exprRun, n | .ternary, .exprRun, n
   | .index, .exprRun, n | .call, .exprRun, n | .dollar, .exprRun, n | .getline, .exprRun, n | .pipe, .exprRun, n => n + 2
   | .assign, .exprRun, n => n + 1
-  | .recur, .exprRun, n => 2 * n + 4
+  | .recur, .exprRun, n | .recurPad _ _ _, .exprRun, n => 2 * n + 4
   | .seq, .exprRun, _ => 4
   | .mapNest, .exprRun, _ | .regex, .exprRun, _ | .incl, .exprRun, _ => 3
   | _, .exprRun, _ => 2
   | .call, .stack, n => if n = 0 then 0 else stackBase + 4 * n + 1
   | .recur, .stack, n => stackBase + 5 * n + 5
+  | .recurPad a p k, .stack, n => stackBase + k + (4 + a + p) * n + (4 + a + p)
   | .incl, .stack, _ => stackBase + 4
   | .seq, .stack, _ => stackBase + 5
   | _, .stack, _ => 0
